@@ -129,7 +129,7 @@ def stall(tr):
     if not les or tr.exception is not None:
         return []
     stop = tr.scen["tuner"]["stop"]
-    net = 400.0 * tr.scen["script"]["pace"]["mean"]
+    net = 150.0 * tr.scen["script"]["pace"]["mean"]
     if stop.get("max_wallclock_time") != net or len(stop) < 2:
         return []
     T = les[-1]["t"]
